@@ -136,6 +136,15 @@ func (m *Mon) updateLedgers(sc *StepCtx) {
 	}
 
 	// ---- contexts ----
+	if sc.IsRestart() {
+		// every batch in flight at a restart is abandoned (its fees were refunded), also the batches
+		// of contexts that the preparation dropped
+		for _, t := range m.ctxs {
+			for _, bi := range t.Batches {
+				bi.Closed = true
+			}
+		}
+	}
 	for id, rc := range post.Contexts {
 		t := m.ctxs[id]
 		if t == nil {
